@@ -49,6 +49,18 @@ def run(ctx):
     for j, (fty, ex_) in enumerate([("S8", '("abc")'), ("S8", "(C_CC)"), ("S8", "{ K::W }"), ("S8", '("abc", bound())'.replace('("abc", bound())', '("xy"), bound()'))]):
         text = ("#[derive_ex::derive_ex(Default)]\npub struct X { #[default(%s)] pub a: %s }\n\npub fn replay(_h: &str, _b: &[u8]) -> (bool, String) { (true, String::new()) }\n" % (ex_, fty))
         progs.append(E.Prog("p_n%02d" % j, text, [], {"describe": "#[default(%s)] a: %s  [no Into for a wrapped literal/path: must be refused]" % (ex_, fty)}, expect_compile=False))
+    # the value arrives through a macro_rules! fragment (an invisible group around the literal / path): it still *is* a string literal / a path
+    mtext = ("macro_rules! mk_lit { ($n:ident, $t:ty, $e:literal) => { #[derive_ex::derive_ex(Default)] #[derive(Debug, PartialEq)] pub struct $n { #[default($e)] pub a: $t } } }\n"
+             "macro_rules! mk_expr { ($n:ident, $t:ty, $e:expr) => { #[derive(derive_ex::Ex, Debug, PartialEq)] #[derive_ex(Default)] pub struct $n { #[default($e)] pub a: $t, pub z: u8 } } }\n"
+             "macro_rules! mk_path { ($n:ident, $t:ty, $p:path) => { #[derive_ex::derive_ex(Default)] #[derive(Debug, PartialEq)] pub enum $n { A, #[default] B(#[default($p)] $t) } } }\n"
+             "mk_lit!(M1, S8, \"abc\"); mk_expr!(M2, S8, \"xy\"); mk_expr!(M3, u8, { 0 }); mk_expr!(M4, u8, 1 + 2); mk_path!(M5, S8, C_CC); mk_expr!(M6, S8, K::W);\n\n"
+             "pub fn ncheck() -> Vec<String> { let mut out = Vec::new();\n"
+             "    if M1::default() != (M1 { a: <S8 as From<_>>::from(\"abc\") }) { out.push(format!(\"literal fragment: {:?}\", M1::default())); }\n"
+             "    if M2::default() != (M2 { a: <S8 as From<_>>::from(\"xy\"), z: 0 }) { out.push(format!(\"expr fragment holding a literal: {:?}\", M2::default())); }\n"
+             "    if M3::default() != (M3 { a: 0, z: 0 }) || M4::default() != (M4 { a: 3, z: 0 }) { out.push(\"expr fragment holding `_` / an arithmetic expression\".to_string()); }\n"
+             "    if M5::default() != M5::B(<S8 as From<_>>::from(C_CC)) || M6::default() != (M6 { a: <S8 as From<_>>::from(K::W), z: 0 }) { out.push(\"path fragment\".to_string()); }\n    out }\n"
+             "pub fn replay(_h: &str, _b: &[u8]) -> (bool, String) { (true, String::new()) }\n")
+    progs.append(E.Prog("p_macro_fragments", mtext, [], {"describe": "#[default($e)] with $e a macro_rules! literal / expr / path fragment"}, ncheck=True))
     st = E.run_family(ctx, "C11", progs, canary(), per=100, extra_support=fam2.C11_SUPPORT)
     ex = Expander()
     nr = rejections(ctx, ex)
